@@ -91,6 +91,11 @@ OPS = {
     "mask_array": lambda e: da.array([e.am, e.w]), "mask_newaxis": lambda e: e.am.newaxis("n"), "mask_stack": lambda e: da.stack([e.am, e.am], axis="s"),
     # ---- an operand that already HAS the inserted single-label dimension (label None, from newaxis): broadcasting it onto a labelled target
     "none_broadcast": lambda e: e.n1.broadcast([Axis(np.array([5]), "n"), e.n1.axes[1].copy()]),
+    # ... listed in the OTHER order by the target (the operand is transposed on the way: a new array on the same Axis objects)
+    "none_broadcast_T": lambda e: e.n1.broadcast([e.n1.axes[1].copy(), Axis(np.array([5]), "n")]),
+    "none_broadcast_T3": lambda e: e.n1.broadcast([e.n1.axes[1].copy(), Axis(np.array(["k"], dtype=object), "n"), Axis(np.array([1, 2]), "k")]),
+    "none_bca_T": lambda e: da.broadcast_arrays(e.n1, DimArray(np.zeros((3, 1)), axes=[e.n1.axes[1].copy(), Axis(np.array([5]), "n")])),
+    "none_add_T": lambda e: DimArray(np.zeros((3, 1)), axes=[e.n1.axes[1].copy(), Axis(np.array([5]), "n")]) + e.n1,
     "none_bca": lambda e: da.broadcast_arrays(e.n1, DimArray(np.zeros((1, 3)), axes=[Axis(np.array([5]), "n"), e.n1.axes[1].copy()])),
     "none_add": lambda e: e.n1 + DimArray(np.zeros((1, 3)), axes=[Axis(np.array([5]), "n"), e.n1.axes[1].copy()]),
     # ---- statistics of dimarray.lib.stats along an axis that is not the first one, on float labels
@@ -169,5 +174,5 @@ def adapt(name, semicolon):
 
 SEMI_OPS = ["reshape", "reshape_fail", "reshape_same", "reshape_group", "flatten", "unflatten", "T", "newaxis", "add", "align_outer", "stack", "Dataset_ctor", "sum_all", "cumsum", "copy",
             "mask_add", "mask_rmul", "mask_reshape", "mask_broadcast", "mask_bca", "mask_array", "mask_newaxis", "mask_stack",
-            "none_broadcast", "none_bca", "none_add", "none_array",
+            "none_broadcast", "none_bca", "none_add", "none_array", "none_broadcast_T", "none_broadcast_T3", "none_bca_T", "none_add_T",
             "percentile_ax1", "quantile_ax1", "quantile_ax0", "quantile_scalar"]
